@@ -127,6 +127,86 @@ pub fn families(k: usize, r: usize) -> Vec<(String, Vec<usize>, Vec<usize>)> {
     out
 }
 
+
+/// complete loss-pattern families for MID-SIZE configurations, defined relative to every internal boundary
+/// at once: (i) every interval [a,b) of missing originals (b-a <= r), repaired by the first / the last /
+/// a wrapped interval of recovery shards; (ii) every pair of missing originals; (iii) every "sub-cube" loss
+/// {i : i & m == v} over all masks m and values v of the index bits (all power-of-two aligned and strided
+/// patterns: chunk edges, 32- and 64-position words, halves of a transform), repaired by the recovery shards
+/// with the same index predicate first. `variants`: 3 = all recovery choices for every interval, 1 = in rotation.
+pub fn midsize_families(k: usize, r: usize, variants: usize) -> Vec<(String, Vec<usize>, Vec<usize>)> {
+    let mut out: Vec<(String, Vec<usize>, Vec<usize>)> = Vec::new();
+    let take_wrapped = |start: usize, len: usize| -> Vec<usize> {
+        let mut v: Vec<usize> = (0..len).map(|t| (start + t) % r).collect();
+        v.sort();
+        v
+    };
+    for a in 0..k {
+        for b in a + 1..=k.min(a + r) {
+            let len = b - a;
+            let og: Vec<usize> = (0..a).chain(b..k).collect();
+            for v in 0..3usize {
+                if variants < 3 && (a + b) % 3 != v {
+                    continue;
+                }
+                let rg: Vec<usize> = match v {
+                    0 => (0..len).collect(),
+                    1 => (r - len..r).collect(),
+                    _ => take_wrapped(a % r, len),
+                };
+                out.push((format!("interval[{a},{b})v{v}"), og.clone(), rg));
+            }
+        }
+    }
+    if r >= 2 {
+        for i in 0..k {
+            for j in i + 1..k {
+                let og: Vec<usize> = (0..k).filter(|x| *x != i && *x != j).collect();
+                let (mut p, mut q) = (i % r, j % r);
+                if p == q {
+                    q = (q + 1) % r;
+                }
+                if p > q {
+                    std::mem::swap(&mut p, &mut q);
+                }
+                out.push((format!("pair({i},{j})"), og, vec![p, q]));
+            }
+        }
+    }
+    // every pair of recovery shards repairing the first and the last original
+    if r >= 2 && k >= 2 {
+        let og: Vec<usize> = (1..k - 1).collect();
+        for p in 0..r {
+            for q in p + 1..r {
+                out.push((format!("rpair({p},{q})"), og.clone(), vec![p, q]));
+            }
+        }
+    }
+    let bits = usize::BITS as usize - (k.max(r) - 1).leading_zeros() as usize;
+    for m in 1usize..(1 << bits) {
+        // v ranges over the sub-masks of m
+        let mut v = m;
+        loop {
+            let missing: Vec<usize> = (0..k).filter(|i| i & m == v).collect();
+            if !missing.is_empty() && missing.len() <= r && missing.len() < k.max(2) {
+                let og: Vec<usize> = (0..k).filter(|i| i & m != v).collect();
+                let mut rg: Vec<usize> = (0..r).filter(|j| j & m == v).take(missing.len()).collect();
+                if rg.len() < missing.len() {
+                    let more: Vec<usize> = (0..r).filter(|j| j & m != v).take(missing.len() - rg.len()).collect();
+                    rg.extend(more);
+                    rg.sort();
+                }
+                out.push((format!("cube(m={m:#x},v={v:#x})"), og, rg));
+            }
+            if v == 0 {
+                break;
+            }
+            v = (v - 1) & m;
+        }
+    }
+    out
+}
+
 pub fn run(ctx: &Ctx, rep: &mut Report) {
     let seed = ctx.seed;
     let soil = seed | 1;
@@ -148,6 +228,10 @@ pub fn run(ctx: &Ctx, rep: &mut Report) {
                     specs.push(GroupSpec { eng, codec, k, r, data: "basis".into(), soil, });
                     if k + r <= 6 || ctx.thorough() {
                         specs.push(GroupSpec { eng, codec, k, r, data: "dense:66".into(), soil: 0 });
+                    }
+                    if k + r <= 7 || ctx.thorough() {
+                        // particular symbol values (zero shard, equal shards, 0xFFFF, equal halves, 0/1/0xFFFF cycles)
+                        specs.push(GroupSpec { eng, codec, k, r, data: "special:130".into(), soil });
                     }
                     if ctx.thorough() {
                         specs.push(GroupSpec { eng, codec, k, r, data: "dense:2".into(), soil });
@@ -267,6 +351,81 @@ pub fn run(ctx: &Ctx, rep: &mut Report) {
     }
     rep.extra("groups_exhaustive", J::i(groups.len()));
     rep.extra("subset_cases", J::i(total));
+
+
+    // ---------------- mid-size configurations: complete boundary-relative loss families
+    let mid: Vec<(usize, usize)> = if ctx.thorough() {
+        vec![(40, 24), (24, 40), (70, 70), (100, 36), (36, 100), (33, 31), (65, 65), (130, 30), (30, 130), (96, 64), (200, 56)]
+    } else {
+        vec![(40, 24), (24, 40), (70, 70), (100, 36), (36, 100), (33, 31)]
+    };
+    let mut mid_specs: Vec<GroupSpec> = Vec::new();
+    for (ci, &(k, r)) in mid.iter().enumerate() {
+        for (ki, codec) in ["high", "low", "def", "rs", "oneshot"].into_iter().enumerate() {
+            if !spec_supports(codec_kind(codec), k, r) {
+                continue;
+            }
+            if ki >= 3 && !ctx.thorough() && ci % 2 == 1 {
+                continue; // quick: ReedSolomon* and the one-shot functions on every other configuration
+            }
+            let fast = engines_fast();
+            let engs: Vec<&'static str> = if ki >= 3 { vec!["default"] } else if ctx.thorough() { fast.clone() } else { vec![fast[(ci + ki) % fast.len()]] };
+            for eng in engs {
+                let data = ["dense:64", "dense:66", "special:64", "dense:130"][(ci + ki) % 4];
+                mid_specs.push(GroupSpec { eng, codec, k, r, data: data.into(), soil: if (ci + ki) % 2 == 0 { soil } else { 0 } });
+            }
+        }
+    }
+    rep.bound("midsize_cfg", J::s(format!("{mid:?} x {{high,low,def}} (quick: engines nosimd/avx2 in rotation; thorough: both) + ReedSolomon* and one-shot encode/decode on the default engine (quick: every other configuration): every interval of missing originals (length <= r) x {} recovery choices (first / last / wrapped interval), every pair of missing originals, every pair of recovery shards (first and last original missing), every sub-cube loss {{i : i & m == v}} over all masks and values of the index bits", if ctx.thorough() { "3" } else { "1 of 3 (in rotation)" })));
+    let mid_groups: Vec<Result<Group, String>> = par_for(mid_specs.len(), 1, |i| {
+        let s = &mid_specs[i];
+        build_group(s.eng, s.codec, s.k, s.r, &s.data, s.soil, seed)
+    });
+    let mut mgroups: Vec<Group> = Vec::new();
+    for (i, b) in mid_groups.into_iter().enumerate() {
+        match b {
+            Ok(g) => mgroups.push(g),
+            Err(e) => {
+                let s = &mid_specs[i];
+                let kv = Kv::new().with("eng", s.eng).with("codec", s.codec).with("k", s.k).with("r", s.r).with("data", &s.data).with("soil", s.soil).with("seed", seed).with("og", "-").with("rg", "-");
+                rep.violation(Violation { key: format!("encode-{}-{}-{}-{}", s.codec, s.eng, s.k, s.r), case: kv.dump(), expected: "encode Ok".into(), observed: e });
+            }
+        }
+    }
+    let variants = if ctx.thorough() { 3 } else { 1 };
+    let mfams: Vec<Vec<(String, Vec<usize>, Vec<usize>)>> = mgroups.iter().map(|g| midsize_families(g.k, g.r, variants)).collect();
+    let mut moffs = vec![0usize];
+    for f in &mfams {
+        moffs.push(moffs.last().unwrap() + f.len());
+    }
+    let mtotal = *moffs.last().unwrap();
+    let mres: Vec<(u64, Option<Violation>)> = par_for(mtotal, 64, |idx| {
+        let gi = moffs.partition_point(|o| *o <= idx) - 1;
+        let g = &mgroups[gi];
+        let (name, og, rg) = &mfams[gi][idx - moffs[gi]];
+        let adds = (og.len() + rg.len()) as u64 + 1;
+        match check_one(g, og, rg) {
+            Ok(()) => (adds, None),
+            Err((exp, obs)) => (adds, Some(Violation { key: format!("{}-{}-k{}r{}-{}-{}", g.codec, g.eng, g.k, g.r, g.data.replace(':', ""), name), case: case_kv(g, og, rg).dump(), expected: exp, observed: obs })),
+        }
+    });
+    for (adds, v) in mres {
+        rep.states += 1;
+        rep.traces += 1;
+        rep.evaluations += 1;
+        rep.transitions += adds;
+        rep.distinct += 1;
+        if let Some(v) = v {
+            rep.violation(v);
+        }
+    }
+    rep.extra("midsize_groups", J::i(mgroups.len()));
+    rep.extra("midsize_cases", J::i(mtotal));
+    if let (Some(g), Some(f)) = (mgroups.first(), mfams.first()) {
+        if let Some((name, og, rg)) = f.get(f.len() / 2) {
+            rep.sample(format!("{} family={name}", case_kv(g, og, rg).dump()));
+        }
+    }
 
     // ---------------- pattern families on large / envelope configurations
     let big: Vec<(usize, usize)> = if ctx.thorough() {
